@@ -1,12 +1,543 @@
-(* Proofs/PolicyImports.v — lemmas for C17 (import and builtin restrictions). *)
+(* Proofs/PolicyImports.v — lemmas for C17 (import and builtin restrictions).
+   Everything is for ALL strings / alias lists / worlds; the regenerated literal sets of Gen/ImportConsts.v
+   are only inspected in the lemmas of the section "facts about the regenerated sets". *)
 From Coq Require Import String Ascii.
 From PV Require Import Common.Util Gen.ImportConsts Policy.Imports Policy.ImportsCheck.
 Local Open Scope string_scope.
 Local Open Scope list_scope.
 
+(* ---------- membership ---------- *)
 Lemma str_mem_In s l : str_mem s l = true <-> In s l.
 Proof.
   unfold str_mem. rewrite existsb_exists. split.
   - intros (x & Hx & E). apply String.eqb_eq in E. subst. exact Hx.
   - intros H. exists s. split; [exact H|apply String.eqb_refl].
+Qed.
+
+Lemma str_mem_false s l : str_mem s l = false <-> ~ In s l.
+Proof. rewrite <- str_mem_In. destruct (str_mem s l); split; congruence. Qed.
+
+(* ---------- the policy kernel ---------- *)
+Lemma decide_denied m : ~ In m allowed_imports -> decide false false m = VDenied.
+Proof. intros H. unfold decide. apply str_mem_false in H. rewrite H. reflexivity. Qed.
+
+Lemma decide_allowed m : In m allowed_imports -> decide false false m = VSystem.
+Proof. intros H. unfold decide. apply str_mem_In in H. rewrite H. reflexivity. Qed.
+
+Lemma decide_allow_all m : decide true false m = VSystem.
+Proof. reflexivity. Qed.
+
+Lemma decide_pyscript aa m : decide aa true m = VPyscript.
+Proof. reflexivity. Qed.
+
+(* the check is exactly set membership: no weaker predicate (prefix, substring, ...) has this property *)
+Lemma decide_system_iff m : decide false false m = VSystem <-> In m allowed_imports.
+Proof.
+  split; [|apply decide_allowed].
+  intros H. destruct (str_mem m allowed_imports) eqn:E; [apply str_mem_In; exact E|].
+  apply str_mem_false in E. rewrite (decide_denied m E) in H. discriminate.
+Qed.
+
+(* ---------- resolve ---------- *)
+Lemma resolve_none_denied w m lvl :
+  w_allow_all w = false -> ~ In m allowed_imports -> ps_lookup w m lvl = PsNone ->
+  resolve w m lvl = (RFail SDenied, w).
+Proof. intros Ha Hn Hp. unfold resolve. rewrite Hp, Ha, (decide_denied m Hn). reflexivity. Qed.
+
+Lemma resolve_none_system w m lvl si :
+  (w_allow_all w = true \/ In m allowed_imports) -> ps_lookup w m lvl = PsNone ->
+  assoc m (w_sys w) = Some si -> si_importable si = true ->
+  resolve w m lvl = (RMod (OSys m) (si_has si) (si_public si), w).
+Proof.
+  intros Ha Hp Hs Hi. unfold resolve. rewrite Hp, Hs, Hi.
+  destruct Ha as [Ha|Ha].
+  - rewrite Ha. reflexivity.
+  - unfold decide. apply str_mem_In in Ha. rewrite Ha. destruct (w_allow_all w); reflexivity.
+Qed.
+
+Lemma resolve_hit w m lvl cn f fresh :
+  ps_lookup w m lvl = PsHit cn f fresh ->
+  exists has pub w', resolve w m lvl = (RMod (OPs f) has pub, w').
+Proof. intros Hp. unfold resolve. rewrite Hp. eauto. Qed.
+
+Lemma resolve_allow_all w m lvl : w_allow_all (snd (resolve w m lvl)) = w_allow_all w.
+Proof.
+  unfold resolve. destruct (ps_lookup w m lvl) as [cn f fresh| | |]; cbn [snd]; try reflexivity.
+  - destruct fresh; reflexivity.
+  - destruct (decide (w_allow_all w) false m); try reflexivity;
+      destruct (assoc m (w_sys w)) as [si|]; try reflexivity; destruct (si_importable si); reflexivity.
+Qed.
+
+Lemma resolve_origin w m lvl o h p w' :
+  w_allow_all w = false -> resolve w m lvl = (RMod o h p, w') ->
+  (exists f, o = OPs f) \/ (o = OSys m /\ In m allowed_imports).
+Proof.
+  intros Ha. unfold resolve. destruct (ps_lookup w m lvl) as [cn f fresh| | |]; try discriminate.
+  - intros H. inversion H. left. eauto.
+  - rewrite Ha. unfold decide. cbn [negb andb].
+    destruct (str_mem m allowed_imports) eqn:E; cbn [negb]; [|discriminate].
+    apply str_mem_In in E.
+    destruct (assoc m (w_sys w)) as [si|]; [|discriminate].
+    destruct (si_importable si); [|discriminate].
+    intros H. inversion H. right. split; [reflexivity|exact E].
+Qed.
+
+Lemma resolve_not_other w m lvl o h p w' : resolve w m lvl = (RMod o h p, w') -> o <> OOther.
+Proof.
+  unfold resolve. destruct (ps_lookup w m lvl) as [cn f fresh| | |]; try discriminate.
+  - intros H. inversion H. discriminate.
+  - destruct (decide (w_allow_all w) false m); try discriminate;
+      (destruct (assoc m (w_sys w)) as [si|]; [|discriminate]; destruct (si_importable si); [|discriminate];
+       intros H; inversion H; discriminate).
+Qed.
+
+(* ---------- what "not a pyscript module/app package" means ---------- *)
+Lemma find_all_false {A} (f : A -> bool) l : (forall x, In x l -> f x = false) -> find f l = None.
+Proof.
+  induction l as [|x r IH]; intros H; cbn [find]; [reflexivity|].
+  rewrite (H x (or_introl eq_refl)). apply IH. intros y Hy. apply H. right. exact Hy.
+Qed.
+
+(* level 0: the name denotes no pyscript module iff none of the candidate contexts is loaded and none of the
+   candidate files (apps/<p>/__init__.py, apps/<p>.py for app packages; modules/<p>/__init__.py, modules/<p>.py) exists *)
+Lemma ps_lookup_none_iff w m :
+  ps_lookup w m 0 = PsNone <->
+  forall c, In c (cands0 (w_rel w) m) -> assoc (fst c) (w_loaded w) = None /\ str_mem (snd c) (w_present w) = false.
+Proof.
+  unfold ps_lookup, candidates. cbn [N.eqb].
+  set (l := cands0 (w_rel w) m).
+  set (f1 := fun c : string * string => match assoc (fst c) (w_loaded w) with Some _ => true | None => false end).
+  set (f2 := fun c : string * string => str_mem (snd c) (w_present w)).
+  split.
+  - destruct (find f1 l) as [[cn f]|] eqn:E1; [discriminate|].
+    destruct (find f2 l) as [[cn f]|] eqn:E2; [discriminate|].
+    intros _ c Hc. pose proof (find_none _ _ E1 c Hc) as H1. pose proof (find_none _ _ E2 c Hc) as H2.
+    subst f1 f2. cbn beta in H1, H2. split; [|exact H2]. destruct (assoc (fst c) (w_loaded w)); [discriminate|reflexivity].
+  - intros H.
+    rewrite (find_all_false f1 l) by (intros c Hc; subst f1; cbn beta; rewrite (proj1 (H c Hc)); reflexivity).
+    rewrite (find_all_false f2 l) by (intros c Hc; exact (proj2 (H c Hc))). reflexivity.
+Qed.
+
+Lemma ps_lookup_no_files w m : w_present w = [] -> w_loaded w = [] -> ps_lookup w m 0 = PsNone.
+Proof. intros Hp Hl. apply ps_lookup_none_iff. intros c _. rewrite Hp, Hl. split; reflexivity. Qed.
+
+(* ---------- bound lists ---------- *)
+Lemma r_bound_cons b r : r_bound (res_cons b r) = b ++ r_bound r.
+Proof. reflexivity. Qed.
+Lemma r_status_cons b r : r_status (res_cons b r) = r_status r.
+Proof. reflexivity. Qed.
+
+Lemma bind_names_origin o has pub l n o' : In (n, o') (r_bound (bind_names o has pub l)) -> o' = o.
+Proof.
+  induction l as [|a r IH]; cbn [bind_names]; [intros []|].
+  destruct (al_name a =? "*").
+  - rewrite r_bound_cons, in_app_iff, in_map_iff. intros [(x & E & _)|H]; [inversion E; reflexivity|exact (IH H)].
+  - destruct (str_mem (al_name a) has); [|intros []].
+    rewrite r_bound_cons. cbn [app In]. intros [E|H]; [inversion E; reflexivity|exact (IH H)].
+Qed.
+
+Lemma from_dot_origin w lvl l n o : In (n, o) (r_bound (from_dot_aliases w lvl l)) -> exists f, o = OPs f.
+Proof.
+  revert w. induction l as [|a r IH]; intros w; cbn [from_dot_aliases]; [intros []|].
+  destruct (ps_lookup w (al_name a) lvl) as [cn f fresh| | |]; [|intros []|intros []|intros []].
+  rewrite r_bound_cons. cbn [app In]. intros [E|H]; [inversion E; eauto|exact (IH _ H)].
+Qed.
+
+(* a property of origins that holds of everything [resolve] can return holds of everything an import binds *)
+Lemma import_aliases_origin (P : world -> Prop) (Q : origin -> Prop) :
+  (forall w m, P w -> P (snd (resolve w m 0))) ->
+  (forall w m o h p w', P w -> resolve w m 0 = (RMod o h p, w') -> Q o) ->
+  forall l w n o, P w -> In (n, o) (r_bound (import_aliases w l)) -> Q o.
+Proof.
+  intros Hpres Hq. induction l as [|a r IH]; intros w n o Hw; cbn [import_aliases]; [intros []|].
+  destruct (resolve w (al_name a) 0) as [rs w'] eqn:E. destruct rs as [o1 h p|s]; [|intros []].
+  rewrite r_bound_cons. cbn [app In]. intros [H|H].
+  - inversion H; subst. exact (Hq _ _ _ _ _ _ Hw E).
+  - apply (IH w' n o); [|exact H]. specialize (Hpres w (al_name a) Hw). rewrite E in Hpres. exact Hpres.
+Qed.
+
+(* ---------- C17: safety — nothing outside the allow-list is ever bound, whatever the statement ---------- *)
+Theorem safety : forall w s n m,
+  w_allow_all w = false -> In (n, OSys m) (r_bound (run_stmt w s)) -> In m allowed_imports.
+Proof.
+  intros w s n m Ha. destruct s as [l|[mo|] lvl l]; cbn [run_stmt].
+  - intros H.
+    refine (import_aliases_origin (fun w => w_allow_all w = false)
+              (fun o => forall m, o = OSys m -> In m allowed_imports) _ _ l w n (OSys m) Ha H m eq_refl).
+    + intros w0 m0 H0. rewrite resolve_allow_all. exact H0.
+    + intros w0 m0 o h p w' H0 E m1 ->. destruct (resolve_origin _ _ _ _ _ _ _ H0 E) as [(f & Hf)|(Ho & Hin)]; [discriminate|].
+      inversion Ho; subst. exact Hin.
+  - destruct (is_stubs mo); [destruct (existsb has_as l); intros []|].
+    destruct (resolve w mo lvl) as [rs w'] eqn:E. destruct rs as [o h p|s]; [|intros []].
+    intros H. apply bind_names_origin in H. subst o.
+    destruct (resolve_origin _ _ _ _ _ _ _ Ha E) as [(f & Hf)|(Ho & Hin)]; [discriminate|].
+    inversion Ho; subst. exact Hin.
+  - intros H. apply from_dot_origin in H. destruct H as (f & Hf). discriminate.
+Qed.
+
+Theorem never_other : forall w s n, ~ In (n, OOther) (r_bound (run_stmt w s)).
+Proof.
+  intros w s n. destruct s as [l|[mo|] lvl l]; cbn [run_stmt].
+  - intros H.
+    exact (import_aliases_origin (fun _ => True) (fun o => o <> OOther) (fun _ _ _ => I)
+             (fun w0 m0 o h p w' _ E => resolve_not_other _ _ _ _ _ _ _ E) l w n OOther I H eq_refl).
+  - destruct (is_stubs mo); [destruct (existsb has_as l); intros []|].
+    destruct (resolve w mo lvl) as [rs w'] eqn:E. destruct rs as [o h p|s]; [|intros []].
+    intros H. apply bind_names_origin in H. subst o. exact (resolve_not_other _ _ _ _ _ _ _ E eq_refl).
+  - intros H. apply from_dot_origin in H. destruct H as (f & Hf). discriminate.
+Qed.
+
+(* ---------- C17: denied ---------- *)
+(* import a [as x] *)
+Theorem import_denied : forall w a,
+  w_allow_all w = false -> ~ In (al_name a) allowed_imports -> ps_lookup w (al_name a) 0 = PsNone ->
+  run_stmt w (SImport [a]) = res SDenied [].
+Proof.
+  intros w a Ha Hn Hp. cbn [run_stmt import_aliases]. rewrite (resolve_none_denied _ _ _ Ha Hn Hp). reflexivity.
+Qed.
+
+(* in a configuration without pyscript modules every non-allow-listed name is denied: no side condition left *)
+Theorem import_denied_no_files : forall w a,
+  w_allow_all w = false -> w_present w = [] -> w_loaded w = [] -> ~ In (al_name a) allowed_imports ->
+  run_stmt w (SImport [a]) = res SDenied [].
+Proof. intros w a Ha Hp Hl Hn. apply import_denied; [exact Ha|exact Hn|apply ps_lookup_no_files; assumption]. Qed.
+
+(* import ok1, ok2 as y, a, ...: the aliases before the denied one are bound, then it stops *)
+Definition sys_importable (w : world) (m : string) : Prop :=
+  exists si, assoc m (w_sys w) = Some si /\ si_importable si = true.
+
+Theorem import_denied_at : forall w pre a post,
+  w_allow_all w = false ->
+  (forall x, In x pre -> In (al_name x) allowed_imports /\ ps_lookup w (al_name x) 0 = PsNone /\ sys_importable w (al_name x)) ->
+  ~ In (al_name a) allowed_imports -> ps_lookup w (al_name a) 0 = PsNone ->
+  run_stmt w (SImport (pre ++ a :: post)) = res SDenied (map (fun x => (bind_name x, OSys (al_name x))) pre).
+Proof.
+  intros w pre a post Ha Hpre Hn Hp. cbn [run_stmt].
+  induction pre as [|x r IH]; cbn [app import_aliases map].
+  - rewrite (resolve_none_denied _ _ _ Ha Hn Hp). reflexivity.
+  - destruct (Hpre x (or_introl eq_refl)) as (Hin & Hps & si & Hs & Hi).
+    rewrite (resolve_none_system w (al_name x) 0 si (or_intror Hin) Hps Hs Hi).
+    rewrite IH; [reflexivity|]. intros y Hy. apply Hpre. right. exact Hy.
+Qed.
+
+(* from [..]a[.b] import <anything> — any names (also `*`), any level *)
+Theorem from_denied : forall w m lvl names,
+  w_allow_all w = false -> ~ In m allowed_imports -> is_stubs m = false -> ps_lookup w m lvl = PsNone ->
+  run_stmt w (SFrom (Some m) lvl names) = res SDenied [].
+Proof.
+  intros w m lvl names Ha Hn Hst Hp. cbn [run_stmt]. rewrite Hst, (resolve_none_denied _ _ _ Ha Hn Hp). reflexivity.
+Qed.
+
+(* from . import x: only pyscript modules, otherwise ModuleNotFoundError; nothing bound *)
+Theorem from_dot_notfound : forall w lvl a rest,
+  ps_lookup w (al_name a) lvl = PsNone -> run_stmt w (SFrom None lvl (a :: rest)) = res SRelNotFound [].
+Proof. intros w lvl a rest Hp. cbn [run_stmt from_dot_aliases]. rewrite Hp. reflexivity. Qed.
+
+(* without the allow-list nothing of a from-import is bound, stubs or not *)
+Theorem from_not_allowed_binds_nothing : forall w m lvl names,
+  w_allow_all w = false -> ~ In m allowed_imports -> ps_lookup w m lvl = PsNone ->
+  r_bound (run_stmt w (SFrom (Some m) lvl names)) = [].
+Proof.
+  intros w m lvl names Ha Hn Hp. cbn [run_stmt]. destruct (is_stubs m).
+  - destruct (existsb has_as names); reflexivity.
+  - rewrite (resolve_none_denied _ _ _ Ha Hn Hp). reflexivity.
+Qed.
+
+(* ---------- C17: allowed / allow_all ---------- *)
+Definition permitted (w : world) (m : string) : Prop := w_allow_all w = true \/ In m allowed_imports.
+
+Theorem import_permitted : forall w a,
+  permitted w (al_name a) -> ps_lookup w (al_name a) 0 = PsNone -> sys_importable w (al_name a) ->
+  run_stmt w (SImport [a]) = res SOk [(bind_name a, OSys (al_name a))].
+Proof.
+  intros w a Hperm Hp (si & Hs & Hi). cbn [run_stmt import_aliases].
+  rewrite (resolve_none_system w (al_name a) 0 si Hperm Hp Hs Hi). reflexivity.
+Qed.
+
+Lemma bind_names_plain o has pub l :
+  (forall a, In a l -> al_name a <> "*" /\ In (al_name a) has) ->
+  bind_names o has pub l = res SOk (map (fun a => (bind_name a, o)) l).
+Proof.
+  induction l as [|a r IH]; intros H; cbn [bind_names map]; [reflexivity|].
+  destruct (H a (or_introl eq_refl)) as (Hs & Hh).
+  apply String.eqb_neq in Hs. rewrite Hs. apply str_mem_In in Hh. rewrite Hh.
+  rewrite IH; [reflexivity|]. intros b Hb. apply H. right. exact Hb.
+Qed.
+
+Lemma bind_names_star o has pub : bind_names o has pub [{| al_name := "*"; al_as := None |}] = res SOk (map (fun n => (n, o)) pub).
+Proof.
+  change (bind_names o has pub [{| al_name := "*"; al_as := None |}])
+    with (res_cons (map (fun n => (n, o)) pub) (res SOk [])).
+  unfold res_cons, res. cbn [r_status r_bound]. rewrite app_nil_r. reflexivity.
+Qed.
+
+Theorem from_permitted : forall w m lvl si names,
+  permitted w m -> is_stubs m = false -> ps_lookup w m lvl = PsNone ->
+  assoc m (w_sys w) = Some si -> si_importable si = true ->
+  (forall a, In a names -> al_name a <> "*" /\ In (al_name a) (si_has si)) ->
+  run_stmt w (SFrom (Some m) lvl names) = res SOk (map (fun a => (bind_name a, OSys m)) names).
+Proof.
+  intros w m lvl si names Hperm Hst Hp Hs Hi Hn. cbn [run_stmt]. rewrite Hst.
+  rewrite (resolve_none_system w m lvl si Hperm Hp Hs Hi). apply bind_names_plain. exact Hn.
+Qed.
+
+Theorem from_permitted_star : forall w m lvl si,
+  permitted w m -> is_stubs m = false -> ps_lookup w m lvl = PsNone ->
+  assoc m (w_sys w) = Some si -> si_importable si = true ->
+  run_stmt w (SFrom (Some m) lvl [{| al_name := "*"; al_as := None |}]) = res SOk (map (fun n => (n, OSys m)) (si_public si)).
+Proof.
+  intros w m lvl si Hperm Hst Hp Hs Hi. cbn [run_stmt]. rewrite Hst.
+  rewrite (resolve_none_system w m lvl si Hperm Hp Hs Hi). apply bind_names_star.
+Qed.
+
+(* ---------- C17: the pyscript module lookup precedes the check ---------- *)
+Theorem import_pyscript_first : forall w a cn f fresh,
+  ps_lookup w (al_name a) 0 = PsHit cn f fresh ->
+  run_stmt w (SImport [a]) = res SOk [(bind_name a, OPs f)].
+Proof.
+  intros w a cn f fresh Hp. cbn [run_stmt import_aliases].
+  destruct (resolve_hit _ _ _ _ _ _ Hp) as (h & p & w' & E). rewrite E. reflexivity.
+Qed.
+
+Theorem from_pyscript_first : forall w m lvl names cn f fresh n o,
+  is_stubs m = false -> ps_lookup w m lvl = PsHit cn f fresh ->
+  In (n, o) (r_bound (run_stmt w (SFrom (Some m) lvl names))) -> o = OPs f.
+Proof.
+  intros w m lvl names cn f fresh n o Hst Hp. cbn [run_stmt]. rewrite Hst.
+  destruct (resolve_hit _ _ _ _ _ _ Hp) as (h & p & w' & E). rewrite E. apply bind_names_origin.
+Qed.
+
+(* ---------- C17: stubs ---------- *)
+Theorem stubs_ignored : forall w m lvl names,
+  is_stubs m = true -> (forall a, In a names -> al_as a = None) ->
+  run_stmt w (SFrom (Some m) lvl names) = res SIgnored [].
+Proof.
+  intros w m lvl names Hst Hn. cbn [run_stmt]. rewrite Hst.
+  assert (E : existsb has_as names = false).
+  { induction names as [|a r IH]; [reflexivity|]. cbn [existsb]. unfold has_as at 1. rewrite (Hn a (or_introl eq_refl)).
+    apply IH. intros b Hb. apply Hn. right. exact Hb. }
+  rewrite E. reflexivity.
+Qed.
+
+Theorem stubs_bind_nothing : forall w m lvl names, is_stubs m = true -> r_bound (run_stmt w (SFrom (Some m) lvl names)) = [].
+Proof. intros w m lvl names Hst. cbn [run_stmt]. rewrite Hst. destruct (existsb has_as names); reflexivity. Qed.
+
+Lemma prefix_append p : forall s, String.prefix p s = true <-> exists r, s = String.append p r.
+Proof.
+  induction p as [|c p IH]; intros s; destruct s as [|d s]; cbn [String.prefix String.append].
+  - split; [intros _; exists ""; reflexivity|reflexivity].
+  - split; [intros _; eexists; reflexivity|reflexivity].
+  - split; [discriminate|intros (r & Hr); discriminate Hr].
+  - destruct (ascii_dec c d) as [->|Hne].
+    + rewrite IH. split; intros (r & Hr); exists r; [rewrite Hr; reflexivity|inversion Hr; reflexivity].
+    + split; [discriminate|intros (r & Hr); inversion Hr; congruence].
+Qed.
+
+Lemma is_stubs_spec m : is_stubs m = true <-> m = "stubs" \/ exists r, m = String.append "stubs." r.
+Proof. unfold is_stubs. rewrite orb_true_iff, String.eqb_eq, prefix_append. reflexivity. Qed.
+
+(* ---------- eval / exec ---------- *)
+Theorem via_same : forall v w s, v <> VEvalRaw -> run_via v w s = run_stmt w s.
+Proof. intros v w s H. destruct v; try reflexivity. congruence. Qed.
+
+Theorem via_eval_statement : forall w s, run_via VEvalRaw w s = res SSyntax [].
+Proof. reflexivity. Qed.
+
+(* ---------- builtins ---------- *)
+Theorem builtins_excluded : forall e n,
+  In n builtin_exclude \/ starts_underscore n = true -> name_lookup e n <> KBuiltin.
+Proof.
+  intros e n H. unfold name_lookup.
+  destruct (ne_sym e); [discriminate|].
+  destruct (assoc n logger_funcs); [discriminate|].
+  destruct (str_mem n other_ast_funcs); [discriminate|].
+  destruct (ne_global e); [discriminate|].
+  destruct (str_mem n ast_factory_funcs); [discriminate|].
+  destruct H as [H|H].
+  - apply str_mem_In in H. rewrite H. rewrite andb_false_r. discriminate.
+  - rewrite H. rewrite andb_false_r. discriminate.
+Qed.
+
+Theorem builtin_only_if : forall e n,
+  name_lookup e n = KBuiltin ->
+  ne_pybuiltin e = true /\ ~ In n builtin_exclude /\ starts_underscore n = false /\ ~ In n ast_factory_funcs.
+Proof.
+  intros e n. unfold name_lookup.
+  destruct (ne_sym e); [discriminate|].
+  destruct (assoc n logger_funcs); [discriminate|].
+  destruct (str_mem n other_ast_funcs); [discriminate|].
+  destruct (ne_global e); [discriminate|].
+  destruct (str_mem n ast_factory_funcs) eqn:Ef; [discriminate|].
+  destruct (ne_pybuiltin e); [|discriminate].
+  destruct (str_mem n builtin_exclude) eqn:Ex; [discriminate|].
+  destruct (starts_underscore n); [discriminate|].
+  intros _. repeat split; try (apply str_mem_false; assumption).
+Qed.
+
+(* ---------- facts about the regenerated sets (a changed set re-runs these) ---------- *)
+Lemma six_excluded : forall n, In n six_names -> In n builtin_exclude.
+Proof. intros n H. apply str_mem_In. cbn in H. repeat (destruct H as [<-|H]; [reflexivity|]). destruct H. Qed.
+
+Theorem six_never_builtin : forall e n, In n six_names -> name_lookup e n <> KBuiltin.
+Proof. intros e n H. apply builtins_excluded. left. apply six_excluded. exact H. Qed.
+
+Lemma factory_wrapped : forall n, In n ["eval"; "exec"; "globals"; "locals"] -> In n ast_factory_funcs.
+Proof. intros n H. apply str_mem_In. cbn in H. repeat (destruct H as [<-|H]; [reflexivity|]). destruct H. Qed.
+
+Theorem eval_exec_never_builtin : forall e n, In n ["eval"; "exec"; "globals"; "locals"] -> name_lookup e n <> KBuiltin.
+Proof.
+  intros e n H Hk. apply builtin_only_if in Hk. destruct Hk as (_ & _ & _ & Hf). apply Hf. apply factory_wrapped. exact H.
+Qed.
+
+(* print and the log functions denote methods of the script's logger unless the script rebinds them in the
+   current table *)
+Theorem print_is_logger : forall e, ne_sym e = false -> exists lvl, name_lookup e "print" = KLogger lvl.
+Proof. intros e H. unfold name_lookup. rewrite H. cbn. eauto. Qed.
+
+Theorem log_funcs_are_loggers : forall e n lvl, ne_sym e = false -> In (n, lvl) log_names -> name_lookup e n = KLogger lvl.
+Proof.
+  intros e n lvl H Hin. unfold name_lookup. rewrite H. cbn in Hin.
+  repeat (destruct Hin as [E|Hin]; [inversion E; reflexivity|]). destruct Hin.
+Qed.
+
+(* names a weakened test would let through are denied by the regenerated list *)
+Example near_misses_denied :
+  forallb (fun m => match decide false false m with VDenied => true | _ => false end)
+    ["jso"; "jsonx"; "xjson"; "JSON"; "json.decoder"; "json.json"; "homeassistant"; "homeassistant.core";
+     "homeassistant.const.x"; "homeassistant_const"; "mat"; "maths"; "r"; "ree"; "datetime.datetime"; "os"; "os.path";
+     "sys"; "subprocess"; "importlib"; "builtins"; ""] = true.
+Proof. vm_compute. reflexivity. Qed.
+
+Example allow_list_accepted :
+  forallb (fun m => match decide false false m with VSystem => true | _ => false end)
+    ["json"; "math"; "re"; "datetime"; "homeassistant.const"] = true.
+Proof. vm_compute. reflexivity. Qed.
+
+(* ---------- the hypotheses above are inhabited: concrete worlds ---------- *)
+Definition ex_world (aa : bool) : world :=
+  {| w_allow_all := aa; w_ctx := "apps.pvapp"; w_rel := Some "apps/pvapp/__init__";
+     w_defs := [{| pf_path := "modules/os.py"; pf_names := ["pv_marker"; "_pv_hidden"] |};
+                {| pf_path := "apps/pvapp/helper.py"; pf_names := ["pv_marker"] |}];
+     w_present := ["modules/os.py"; "apps/pvapp/helper.py"]; w_loaded := [];
+     w_sys := [("json", {| si_importable := true; si_has := ["dumps"]; si_public := ["dumps"; "loads"] |});
+               ("subprocess", {| si_importable := true; si_has := ["run"]; si_public := [] |})] |}.
+
+Example ex_denied :
+  let w := ex_world false in let a := {| al_name := "subprocess"; al_as := Some "sp" |} in
+  w_allow_all w = false /\ ~ In (al_name a) allowed_imports /\ ps_lookup w (al_name a) 0 = PsNone
+  /\ run_stmt w (SImport [a]) = res SDenied []
+  /\ run_stmt w (SFrom (Some "subprocess") 0 [{| al_name := "*"; al_as := None |}]) = res SDenied []
+  /\ run_stmt w (SFrom (Some "subprocess") 1 [{| al_name := "run"; al_as := None |}]) = res SDenied [].
+Proof.
+  cbv zeta. repeat split; try (vm_compute; reflexivity).
+  apply str_mem_false. vm_compute. reflexivity.
+Qed.
+
+Example ex_denied_at :
+  let w := ex_world false in
+  run_stmt w (SImport [{| al_name := "json"; al_as := Some "j" |}; {| al_name := "subprocess"; al_as := None |};
+                       {| al_name := "json"; al_as := None |}]) = res SDenied [("j", OSys "json")].
+Proof. vm_compute. reflexivity. Qed.
+
+Example ex_permitted :
+  let w := ex_world false in
+  permitted w "json" /\ ps_lookup w "json" 0 = PsNone /\ sys_importable w "json"
+  /\ run_stmt w (SFrom (Some "json") 0 [{| al_name := "dumps"; al_as := Some "d" |}]) = res SOk [("d", OSys "json")]
+  /\ run_stmt (ex_world true) (SImport [{| al_name := "subprocess"; al_as := None |}]) = res SOk [("subprocess", OSys "subprocess")].
+Proof.
+  cbv zeta. repeat split; try (vm_compute; reflexivity).
+  - right. apply str_mem_In. vm_compute. reflexivity.
+  - eexists. split; vm_compute; reflexivity.
+Qed.
+
+Example ex_pyscript_first :
+  let w := ex_world false in
+  ps_lookup w "os" 0 = PsHit "modules.os" "modules/os.py" true
+  /\ run_stmt w (SImport [{| al_name := "os"; al_as := None |}]) = res SOk [("os", OPs "modules/os.py")]
+  /\ run_stmt w (SFrom None 1 [{| al_name := "helper"; al_as := None |}]) = res SOk [("helper", OPs "apps/pvapp/helper.py")]
+  /\ run_stmt w (SFrom None 2 [{| al_name := "helper"; al_as := None |}]) = res SImportErr []
+  /\ run_stmt w (SFrom (Some "os") 0 [{| al_name := "*"; al_as := None |}]) = res SOk [("pv_marker", OPs "modules/os.py")].
+Proof. cbv zeta. repeat split; vm_compute; reflexivity. Qed.
+
+Example ex_stubs :
+  is_stubs "stubs.pyscript_builtins" = true /\ is_stubs "stubsx" = false
+  /\ run_stmt (ex_world false) (SFrom (Some "stubs.pyscript_builtins") 0 [{| al_name := "x"; al_as := None |}]) = res SIgnored [].
+Proof. repeat split; vm_compute; reflexivity. Qed.
+
+Example ex_names :
+  name_lookup {| ne_sym := false; ne_global := false; ne_pybuiltin := true |} "open" = KUndefined
+  /\ name_lookup {| ne_sym := false; ne_global := false; ne_pybuiltin := true |} "__import__" = KUndefined
+  /\ name_lookup {| ne_sym := false; ne_global := false; ne_pybuiltin := true |} "len" = KBuiltin
+  /\ name_lookup {| ne_sym := false; ne_global := false; ne_pybuiltin := true |} "print" = KLogger "debug"
+  /\ name_lookup {| ne_sym := false; ne_global := false; ne_pybuiltin := true |} "eval" = KFactory.
+Proof. repeat split; vm_compute; reflexivity. Qed.
+
+(* ---------- Model |= Spec on the functions the correspondence evaluates ---------- *)
+Lemma origin_eqb_eq a b : origin_eqb a b = true -> a = b.
+Proof.
+  destruct a, b; cbn; try discriminate; try reflexivity; intros H; apply String.eqb_eq in H; subst; reflexivity.
+Qed.
+
+Lemma binding_eqb_eq a b : binding_eqb a b = true -> a = b.
+Proof.
+  destruct a as [n o], b as [n' o']. unfold binding_eqb. cbn [fst snd]. rewrite andb_true_iff.
+  intros [H1 H2]. apply String.eqb_eq in H1. apply origin_eqb_eq in H2. subst. reflexivity.
+Qed.
+
+Lemma bmem_In x l : bmem x l = true -> In x l.
+Proof. unfold bmem. rewrite existsb_exists. intros (y & Hy & E). apply binding_eqb_eq in E. subst. exact Hy. Qed.
+
+Lemma final_bindings_incl l x : In x (final_bindings l) -> In x l.
+Proof.
+  induction l as [|[n o] r IH]; cbn [final_bindings]; [intros []|].
+  destruct (existsb (fun p => fst p =? n) r).
+  - intros H. right. exact (IH H).
+  - cbn [In]. intros [H|H]; [left; exact H|right; exact (IH H)].
+Qed.
+
+Lemma nkind_eqb_eq a b : nkind_eqb a b = true -> a = b.
+Proof.
+  destruct a, b; cbn; try discriminate; try reflexivity. intros H. apply String.eqb_eq in H. subst. reflexivity.
+Qed.
+
+Lemma assoc_In {A} k (l : list (string * A)) v : assoc k l = Some v -> In (k, v) l.
+Proof.
+  induction l as [|[k' v'] r IH]; cbn [assoc]; [discriminate|].
+  destruct (String.eqb_spec k k') as [->|Hne].
+  - intros H. inversion H. left. reflexivity.
+  - intros H. right. exact (IH H).
+Qed.
+
+(* whatever the Model reproduces of the implementation never binds an installed module outside the
+   allow-list, never a value of unknown provenance, and touches no other table (Spec clause S1) *)
+Theorem icase_model_safety : forall c, icase_model_ok c = true -> spec_safety c = true.
+Proof.
+  intros c Hm. unfold icase_model_ok in Hm. rewrite !andb_true_iff in Hm. destruct Hm as (((_ & _) & Hb) & Hs).
+  unfold spec_safety. rewrite Hs, andb_true_r. apply forallb_forall. intros [n o] Hin.
+  unfold same_bindings in Hb. rewrite andb_true_iff in Hb. destruct Hb as [_ Hb].
+  rewrite forallb_forall in Hb. specialize (Hb _ Hin). apply bmem_In, final_bindings_incl in Hb.
+  unfold icase_model, run_via in Hb. cbn [snd].
+  destruct o as [f|m|].
+  - reflexivity.
+  - destruct (ic_allow_all c) eqn:Ha; [reflexivity|]. cbn [orb]. apply str_mem_In.
+    destruct (ic_via c); try (apply (safety (world_of c) (ic_stmt c) n m Ha Hb)). destruct Hb.
+  - exfalso. destruct (ic_via c); try (exact (never_other _ _ _ Hb)). destruct Hb.
+Qed.
+
+(* the same for plain names: every lookup the Model reproduces satisfies the property's clauses *)
+Theorem ncase_model_implies_spec : forall c, ncase_model_ok c = true -> ncase_spec_ok c = true.
+Proof.
+  intros c Hm. unfold ncase_model_ok in Hm. rewrite andb_true_iff in Hm. destruct Hm as [Hk Hl].
+  apply nkind_eqb_eq in Hk. unfold ncase_spec_ok. apply andb_true_iff. split.
+  - destruct (str_mem (nc_name c) six_names || starts_underscore (nc_name c)) eqn:E; [|reflexivity].
+    apply negb_true_iff. destruct (nkind_eqb (nc_kind c) KBuiltin) eqn:Ek; [|reflexivity].
+    apply nkind_eqb_eq in Ek. exfalso. rewrite Ek in Hk. revert Hk. apply builtins_excluded.
+    apply orb_true_iff in E. destruct E as [E|E]; [left; apply six_excluded, str_mem_In; exact E|right; exact E].
+  - destruct (nc_shadow c) eqn:Es; [reflexivity|].
+    assert (Hsym : ne_sym (nenv_of c) = false) by (unfold nenv_of; cbn [ne_sym]; rewrite Es; reflexivity).
+    destruct (String.eqb_spec (nc_name c) "print") as [Ep|Ep].
+    + destruct (print_is_logger _ Hsym) as (lvl & Hp). rewrite Ep, Hp in Hk. rewrite <- Hk in Hl |- *. exact Hl.
+    + destruct (assoc (nc_name c) log_names) as [lvl|] eqn:Ea; [|reflexivity].
+      apply assoc_In in Ea. rewrite (log_funcs_are_loggers _ _ _ Hsym Ea) in Hk.
+      rewrite <- Hk in Hl |- *. cbn [nkind_eqb]. rewrite String.eqb_refl. exact Hl.
 Qed.
